@@ -198,6 +198,57 @@ def _check_log_args(src, ko, kc, fname):
         pass
 
 
+def apply_r10(src, ed, fn, stats, fname):
+    """R10: Verus rejects `continue` inside `for` loops.  The only shape rewritten is a top-level guard
+    `if C { continue; }` (no else) in a for-loop body:  `if C { continue; } REST`  ->  `if C { } else { REST }`.
+    Any other placement of `continue` in a for loop makes the unit undecided."""
+    for k_kw, k_body in fn.loops():
+        if src.tt(k_kw) != "for":
+            continue
+        k_end = src._match[k_body]
+        inner = [k for k in src.sig if k_body < k < k_end]
+        # nested loop ranges are skipped
+        nested = [(a, src._match[b]) for a, b in fn.loops() if k_body < a < k_end]
+        conts = [k for k in inner if src.toks[k][0] == "ident" and src.tt(k) == "continue"
+                 and not any(a <= k <= b for a, b in nested)]
+        if not conts:
+            continue
+        if len(conts) != 1:
+            raise ExtractError(f"{src.path}: fn {fname}: for-loop with {len(conts)} `continue` (R10 handles exactly one guard)")
+        kc = conts[0]
+        i = inner.index(kc)
+        if not (i >= 1 and src.tt(inner[i - 1]) == "{" and i + 2 < len(inner) and src.tt(inner[i + 1]) == ";"
+                and src.tt(inner[i + 2]) == "}" and src._match[inner[i - 1]] == inner[i + 2]):
+            raise ExtractError(f"{src.path}: fn {fname}: `continue` is not a lone statement of an if-block (R10)")
+        k_if_open, k_if_close = inner[i - 1], inner[i + 2]
+        # the `if` keyword: walk back from the block's `{` to the statement start; the enclosing brace must be the loop body
+        j = i - 2
+        while j >= 0 and not (src.tt(inner[j]) in (";", "}", "{")):
+            j -= 1
+        first = inner[j + 1]
+        if src.tt(first) != "if":
+            raise ExtractError(f"{src.path}: fn {fname}: guard of `continue` is not a plain `if` statement (R10)")
+        # depth check: the if statement must be at the top level of the loop body
+        depth = 0
+        for k in inner[:j + 1]:
+            t = src.tt(k)
+            if t in ("{", "(", "["):
+                depth += 1
+            elif t in ("}", ")", "]"):
+                depth -= 1
+        if depth != 0:
+            raise ExtractError(f"{src.path}: fn {fname}: guarded `continue` is nested (R10)")
+        # no else
+        nxt = inner[i + 3] if i + 3 < len(inner) else None
+        if nxt is not None and src.tt(nxt) == "else":
+            raise ExtractError(f"{src.path}: fn {fname}: guarded `continue` has an else branch (R10)")
+        line = src.line_of(src.toks[kc][1])
+        ed.replace(src.toks[kc][1], src.toks[inner[i + 1]][2], "/* R10: continue */", ("rule", "R10", line))
+        ed.insert(src.toks[k_if_close][2], " else {", ("rule", "R10", line))
+        ed.insert(src.toks[k_end][1], "} /* R10 */ ", ("rule", "R10", line))
+        stats.rule("R10")
+
+
 def expand_fn(args, sections, unit_file, out, stats):
     relpath, name = args[0], args[1]
     opts = {}
@@ -244,6 +295,7 @@ def expand_fn(args, sections, unit_file, out, stats):
         ed.insert(src.toks[fn.k_open][2], " let mut this = self;", ("rule", "R4", src.line_of(fn.body_open)))
         stats.rule("R4")
     apply_auto_rules(src, ed, fn.k_name, fn.k_close, stats, name)
+    apply_r10(src, ed, fn, stats, name)
     loops = fn.loops()
     closures = fn.closures()
     for kind, arg, text, uline in sections:
@@ -257,6 +309,44 @@ def expand_fn(args, sections, unit_file, out, stats):
                 raise ExtractError(f"{relpath}: fn {name}: loop #{n} not found ({len(loops)} loops) (lost anchor)")
             kb = loops[n - 1][1]
             ed.insert(src.toks[kb][1], "\n" + text, origin)
+        elif kind == "afterloop":
+            n = int(arg)
+            if n < 1 or n > len(loops):
+                raise ExtractError(f"{relpath}: fn {name}: loop #{n} not found (lost anchor)")
+            kclose = src._match[loops[n - 1][1]]
+            ed.insert(src.toks[kclose][2], "\n" + text, origin)
+        elif kind == "endloop":
+            n = int(arg)
+            if n < 1 or n > len(loops):
+                raise ExtractError(f"{relpath}: fn {name}: loop #{n} not found (lost anchor)")
+            kclose = src._match[loops[n - 1][1]]
+            ed.insert(src.toks[kclose][1], "\n" + text, origin)
+        elif kind == "attr":
+            # R1: verifier attribute in front of the fn item (ghost: affects only how Verus treats loops)
+            if not re.match(r"^#\[verifier::[a-z_]+(\([a-z_0-9, ]*\))?\]$", arg.strip()):
+                raise ExtractError(f"{unit_file}:{uline}: only #[verifier::..] attributes may be added")
+            ed.insert(fn.start, arg.strip() + "\n", origin)
+        elif kind == "loopvar":
+            # R1: name the ghost iterator of the n-th loop (must be a for loop): `for x in EXPR` -> `for x in NAME: EXPR`
+            n, vname = arg.split()
+            n = int(n)
+            if n < 1 or n > len(loops) or src.tt(loops[n - 1][0]) != "for":
+                raise ExtractError(f"{relpath}: fn {name}: for-loop #{n} not found (lost anchor)")
+            s_ = [k for k in src.sig if loops[n - 1][0] < k < loops[n - 1][1]]
+            kin = None
+            depth = 0
+            for k in s_:
+                t = src.tt(k)
+                if t in ("(", "["):
+                    depth += 1
+                elif t in (")", "]"):
+                    depth -= 1
+                elif t == "in" and depth == 0:
+                    kin = k
+                    break
+            if kin is None:
+                raise ExtractError(f"{relpath}: fn {name}: for-loop #{n} has no `in`")
+            ed.insert(src.toks[kin][2], f" {vname}:", origin)
         elif kind == "closure":
             n = int(arg)
             if n < 1 or n > len(closures):
